@@ -23,6 +23,7 @@ ASSUMPTIONS = [
     "inversion judged only for 3-body cards and for cards with p_break=False at every vertex",
     "tolerance |df| <= 3e-6*(f + 1e-2*median f) (3e-5 for gamma>5; observed floor 5e-8 from beta=acos(1-k*eps) in SU2M.get_euler_angle for identity alignment rotations); events whose smallest two-body breakup momentum is < 1e-4 of its parent mass are skipped as ill-conditioned",
     "CPU, eager evaluation",
+    "align_ref=center_mass (reference = canonical boost to the rest frame of each final particle) is exercised for massive final particles only: a massless particle has no rest frame",
 ]
 REQUIRE = {
     "monitors": {
@@ -35,7 +36,7 @@ REQUIRE = {
         "direct API cal_angle_from_momentum+amp invariant": 10,
     },
     "min_nontrivial": {"quick": 40, "thorough": 400},
-    "cover": {"nbody": [3, 4], "half_integer_spin": ["True"], "identical": ["True"]},
+    "cover": {"nbody": [3, 4], "half_integer_spin": ["True"], "identical": ["True"], "align_ref": ["default", "center_mass"]},
 }
 LEVEL_TEXT = ("Metamorphic runtime monitor at the two observation points the property names (ConfigLoader.data.cal_angle -> "
               "get_amplitude()(data); cal_angle_from_momentum + AmplitudeModel.__call__) plus an icontract postcondition on every "
@@ -54,7 +55,7 @@ def make_card(i, rng, tag):
         g = cards.CardGen(rng, tag, nbody=4, n_chains=(1, 3), final_j2=(0, 0, 0, 1, 2), models=MODELS)
     elif cls == 2:
         # identical particles B, C.  sub-classes: 0 = all finals spin 0 (default alignment); 1 = spinning finals with
-        # align_ref=center_mass AND center_mass=True (alignment referred to the parent rest frame); 2 = spinning finals with the
+        # align_ref=center_mass (alignment referred to the parent rest frame; center_mass itself random); 2 = spinning finals with the
         # default alignment rule (known finding: the swapped term uses another helicity basis)
         sub = int(rng.integers(3))
         if sub == 0:
@@ -81,7 +82,6 @@ def make_card(i, rng, tag):
         card["meta"]["identical_sub"] = sub
         if sub == 1:
             card["config"]["data"]["align_ref"] = "center_mass"
-            card["config"]["data"]["center_mass"] = True
     return card
 
 
@@ -144,8 +144,10 @@ def run(ctx):
             data_opts["random_z"] = bool(rng.random() < 0.5)
         if rng.random() < 0.3:
             data_opts["center_mass"] = True
-        if meta.get("identical_sub") == 1:
-            data_opts.pop("center_mass", None)  # fixed to True by the card
+        massless_spin = any(f["mass"] == 0 and f["j2"] > 0 for f in meta["finals"])
+        if rng.random() < 0.25 and "align_ref" not in card["config"]["data"] and not massless_spin:
+            data_opts["align_ref"] = "center_mass"  # with or without center_mass: the reference is the parent rest frame either way
+        ctx.covered("align_ref", str(data_opts.get("align_ref") or card["config"]["data"].get("align_ref") or "default"))
         try:
             cfg = cards.load(card, extra_data=data_opts)
             amp = cfg.get_amplitude()
@@ -179,7 +181,7 @@ def run(ctx):
         ctx.covered("identical", bool(meta.get("identical")))
         ctx.covered("massless_final", has_massless)
         if meta.get("identical"):
-            ctx.covered("identical_subclass", ["all finals spin 0", "spinning finals, align_ref=center_mass+center_mass", "spinning finals, default align (known finding class)"][meta["identical_sub"]])
+            ctx.covered("identical_subclass", ["all finals spin 0", "spinning finals, align_ref=center_mass", "spinning finals, default align (known finding class)"][meta["identical_sub"]])
         ctx.covered("class", meta["class"])
         for r in meta["resonances"]:
             ctx.covered("res_model", r["model"])
@@ -231,7 +233,7 @@ def run(ctx):
         if meta.get("identical"):
             judge("f(exchange identical)==f(p)", [ps[1], ps[0]] + ps[2:], {"exchange": [0, 1]})
         # second observation point: the direct API with its own defaults
-        if i % 4 == 0 and not meta.get("identical") and not data_opts:
+        if i % 4 == 0 and not meta.get("identical"):
             try:
                 dg = cfg.get_decay()
                 fin = {p_: None for p_ in dg.outs}
